@@ -614,10 +614,14 @@ const NODE_EVAL: &str = r#"
 import fs from 'node:fs';
 const srcs = JSON.parse(fs.readFileSync(process.argv[2], 'utf8'));
 let calls = 0, last = null;
-globalThis.__T = (strs, ...subs) => { calls++; last = (subs.length === 0 && strs.length === 1 && strs[0] !== undefined) ? { v: strs[0] } : null; return last; };
+globalThis.__T = (strs, ...subs) => { calls++; last = (subs.length === 0 && strs.length === 1 && strs[0] !== undefined) ? { v: strs[0], raw: strs.raw[0] } : null; return last; };
 const out = srcs.map(src => {
   calls = 0; last = null;
-  try { const r = (0, eval)('__T' + src); if (!(calls === 1 && r !== null && r === last)) return null; return r.v.isWellFormed() ? r.v : false; } catch (e) { return null; }
+  try { const r = (0, eval)('__T' + src); if (!(calls === 1 && r !== null && r === last)) return null;
+    // the whole source must be one template literal (the specification side evaluates a literal, not a program:
+    // `a`// comment  or  `a` ;  are programs): its raw text is the source between the backticks, CR / CR LF as LF
+    if (!(src.length >= 2 && src[0] === '`' && src[src.length - 1] === '`' && r.raw === src.slice(1, -1).replace(/\r\n?/g, '\n'))) return null;
+    return r.v.isWellFormed() ? r.v : false; } catch (e) { return null; }
 });
 fs.writeFileSync(process.argv[3], JSON.stringify(out));
 "#;
@@ -709,7 +713,7 @@ fn cli_cases(out: &mut Out, rng: &mut Rng, cli: &Path, n: usize, work: &Path, us
 }
 
 /// user-defined directives named like the nitrogql-only `nitrogql_ts_type` (same prefix / containing it / extending it)
-const LOOKALIKE_DIRECTIVES: &str = "directive @nitrogql_cache(ttl: Int = 60) repeatable on FIELD_DEFINITION | OBJECT | SCALAR | ARGUMENT_DEFINITION | ENUM_VALUE\n\"not the built-in\"\ndirective @nitrogql_ts_type2 repeatable on FIELD_DEFINITION | OBJECT | SCALAR | ARGUMENT_DEFINITION | ENUM_VALUE\ndirective @my_nitrogql_ts_type(resolverInput: String) repeatable on FIELD_DEFINITION | OBJECT | SCALAR | ARGUMENT_DEFINITION | ENUM_VALUE\n";
+const LOOKALIKE_DIRECTIVES: &str = "directive @nitrogql_cache(ttl: Int = 60) repeatable on FIELD_DEFINITION | OBJECT | SCALAR | ARGUMENT_DEFINITION | ENUM_VALUE\n\"not the built-in\"\ndirective @nitrogql_ts_type2 on FIELD_DEFINITION | OBJECT | SCALAR | ARGUMENT_DEFINITION | ENUM_VALUE\ndirective @my_nitrogql_ts_type(resolverInput: String) on FIELD_DEFINITION | OBJECT | SCALAR | ARGUMENT_DEFINITION | ENUM_VALUE\n";
 /// directives that may stand next to @model (all valid on object types and their fields)
 const MIX_DIRECTIVES: &str = "directive @da on OBJECT | FIELD_DEFINITION\ndirective @db(x: Int) repeatable on OBJECT | FIELD_DEFINITION\ndirective @dc on OBJECT | FIELD_DEFINITION\ndirective @dx on OBJECT\ndirective @dy on OBJECT\n";
 /// `model` among 2-3 other directive applications, at the first, a middle or the last position: removing it must keep
@@ -957,7 +961,7 @@ fn main() {
     let mut node_stats = json!({"node_used": false});
     if use_node {
         let n_t = if thorough { 6000 } else { 600 };
-        let mut srcs: Vec<String> = vec!["`a\\`b`".into(), "`${1}`".into(), "`\\1`".into(), "`a\r\nb`".into(), "`\\u{1F600}`".into(), "`$\\{x}`".into(), "`$`".into(), "`a`b`".into(), "``".into(), "`".into()];
+        let mut srcs: Vec<String> = vec!["`a\\`b`".into(), "`${1}`".into(), "`\\1`".into(), "`a\r\nb`".into(), "`\\u{1F600}`".into(), "`$\\{x}`".into(), "`$`".into(), "`a`b`".into(), "``".into(), "`".into(), "`\\'\\\\`// 0".into(), "`a` ".into(), "`a`;".into(), "`\\'\\\"\\0\\\n\\q`".into()];
         for _ in 0..n_t { srcs.push(random_template(&mut rng)); }
         let work = PathBuf::from("/verif/.build/c16-node");
         match node_run(NODE_EVAL, &json!(srcs), &work) {
